@@ -188,49 +188,69 @@ Inductive outcome :=
 | Crash
 | Fuel.
 
-(* one simulated scan of _recover's innermost "for" from a given state:
-   RFound = the error symbol can be shifted and the lookahead is accepted there *)
+(* one simulated scan of _recover's innermost "for", on a copy of the state
+   stack (top first): SimYes = after the reductions the parser would perform
+   with ERROR as the lookahead, ERROR can be shifted and the state reached
+   accepts the current lookahead *)
 Inductive sim := SimYes | SimNo | SimCrash | SimFuel.
 
-Fixpoint recover_sim (fuel : nat) (state : Z) (look : Z) : sim :=
+Fixpoint recover_sim (fuel : nat) (states : list Z) (look : Z) : sim :=
   match fuel with
   | O => SimFuel
   | S f =>
-    match find (t_actions tb) state ERROR with
-    | FCrash => SimCrash
-    | FNone => SimNo
-    | FFound action =>
-      if action <? 0 then
-        match nthz (t_rules tb) (- action) with
-        | None => SimCrash
-        | Some rule =>
-          match find (t_goto tb) state rule with
-          | FCrash => SimCrash
-          | FNone => recover_sim f 0 look
-          | FFound st' => recover_sim f st' look
+    match states with
+    | [] => SimCrash                   (* sim[len(sim)-1] on an empty slice *)
+    | state :: _ =>
+      match find (t_actions tb) state ERROR with
+      | FCrash => SimCrash
+      | FNone => SimNo
+      | FFound action =>
+        if action <? 0 then
+          match nthz (t_term_counts tb) (- action), nthz (t_rules tb) (- action) with
+          | Some tc, Some rule =>
+            if tc <? 0 then SimCrash                       (* negative slice bound *)
+            else if Z.of_nat (length states) <=? tc then SimNo   (* termCount >= len(sim): break *)
+            else
+              let rest := skipn (Z.to_nat tc) states in
+              match rest with
+              | [] => SimCrash
+              | exposed :: _ =>
+                match find (t_goto tb) exposed rule with
+                | FCrash => SimCrash
+                | FNone => recover_sim f (0 :: rest) look
+                | FFound st' => recover_sim f (st' :: rest) look
+                end
+              end
+          | _, _ => SimCrash
           end
-        end
-      else
-        match find (t_actions tb) action look with
-        | FCrash => SimCrash
-        | FNone => SimNo
-        | FFound _ => SimYes
-        end
+        else
+          match find (t_actions tb) action look with
+          | FCrash => SimCrash
+          | FNone => SimNo
+          | FFound _ => SimYes
+          end
+      end
     end
   end.
 
-(* for len(p._stack) >= 1 { ... p._stack.Pop(1) } *)
-Fixpoint recover_pops (fuel : nat) (st : list sitem) (look : Z) : option (option (list sitem)) * bool :=
-  (* (Some (Some st')) , _ : found with stack st' ; (Some None) : stack exhausted ;
-     (None, true) : crash ; (None, false) : out of fuel *)
+Inductive pops :=
+| PFound (st : list sitem) (errsym : value)   (* recovery point found, stack and Error to report *)
+| PExhausted (errsym : value)                 (* every entry popped *)
+| PCrash
+| PFuel.
+
+(* for len(p._stack) >= 1 { ... ; if the popped entry holds an Error keep it; p._stack.Pop(1) } *)
+Fixpoint recover_pops (fuel : nat) (st : list sitem) (look : Z) (errsym : value) : pops :=
   match st with
-  | [] => (Some None, false)
+  | [] => PExhausted errsym
   | top :: st' =>
-    match recover_sim fuel (i_state top) look with
-    | SimYes => (Some (Some st), false)
-    | SimNo => recover_pops fuel st' look
-    | SimCrash => (None, true)
-    | SimFuel => (None, false)
+    match recover_sim fuel (map i_state st) look with
+    | SimYes => PFound st errsym
+    | SimNo =>
+      recover_pops fuel st' look
+        (match i_sym top with VErr _ _ => i_sym top | _ => errsym end)
+    | SimCrash => PCrash
+    | SimFuel => PFuel
     end
   end.
 
@@ -251,17 +271,17 @@ Fixpoint recover_outer (fuel : nat) (errsym : value) (s : pstate) : outcome :=
   match fuel with
   | O => Fuel
   | S f =>
-    match recover_pops fuel (stack s) (la s) with
-    | (None, true) => Crash
-    | (None, false) => Fuel
-    | (Some (Some st'), _) =>
-      Continue (set_la (set_stack s st') ERROR errsym (la s) (lasym s))
-    | (Some None, _) =>
+    match recover_pops fuel (stack s) (la s) errsym with
+    | PCrash => Crash
+    | PFuel => Fuel
+    | PFound st' e =>
+      Continue (set_la (set_stack s st') ERROR e (la s) (lasym s))
+    | PExhausted e =>
       if la s =? EOF then Reject (set_stack s [])
       else
         match read_token s with     (* p._stack = save; p._readToken() *)
         | None => Crash
-        | Some s' => recover_outer f errsym s'
+        | Some s' => recover_outer f e s'
         end
     end
   end.
